@@ -14,7 +14,16 @@ def G(families, harness, labels, programs=None, **kw):
     return d
 
 
+def K(harness, labels, **kw):
+    d = {"harness": harness, "labels": labels}
+    d.update(kw)
+    return d
+
+
 PROPS = {
+    "C10": {"level": "model_checking", "bounds_text": BT, "G": G(["schema"], "^Harness_Schema_", "^C10/"),
+            "K": [K("^Harness_K4_", "^C10/")]},
+    "C11": {"level": "model_checking", "bounds_text": BT, "K": [K("^Harness_K4_Flags", "^C11/")]},
     "C03": {"level": "model_checking", "bounds_text": BT, "G": G(["rt"], "^Harness_RT_", "^C03/")},
     "C04": {"level": "model_checking", "bounds_text": BT, "G": G(["rt"], "^Harness_RT_", "^C04")},
     "C19": {"level": "model_checking", "bounds_text": BT, "G": G(["rt"], "^Harness_RT_", "C19/")},
